@@ -22,7 +22,7 @@ ASSUMPTIONS = ['default warning filters (under -W error the DeprecationWarning o
                'world.testing/log.testing off']
 LEVEL_TEXT = ('Coq theorems over an executable Gallina model of shlex.read_token (character machine), callbacks.Tokenizer/_handleToken/_insideBrackets/tokenize, '
               'CPython unicode_escape decode/encode, strict UTF-8 and Latin-1: totality (only SyntaxError escapes, for every string incl. lone surrogates, every '
-              'configuration, every name table), UTF-8 round trip, minimal-quote round trip for every list of scalar-value strings, and the dqrepr law refuted by a '
+              'configuration, every name table), UTF-8 round trip, minimal-quote round trip for every list of scalar-value strings at top level and inside n levels of nested-command brackets, and the dqrepr law refuted by a '
               'witness outside a decidable domain (finding F15); tied to the source by regenerated tables (separators, whitespace, bracket/quote sets, except clause, codec chain) '
               'and a differential run against the real tokenizer and codecs on every check.  Partial: the dqrepr law is proved only for printable-ASCII arguments (the rest of dq_dom is explored, not proved); '
               'the bracket-nesting clause is proved for the token stream of any tree (no depth bound), the lexing of the rendered text is explored, not proved.')
@@ -213,6 +213,70 @@ def check_args(ctx, inp):
         ctx.fail(inp, '%s-quoted arguments %r written as %r tokenise to %r' % (inp['style'], args, text, got))
 
 
+SPECIAL_ARGS = ['[', ']', '<', '>', '{', '}', '(', ')', '|', '"', '\\', "'", '`', ' ', '', '[]', ']]', '|x', '] [']
+SPELLINGS = ['minimal', 'dqrepr', 'hex', 'octal', 'u4', 'mixed']
+
+
+def spell(a, style, dqrepr=None):
+    """one argument written between double quotes with backslash escaping, in the given spelling"""
+    if style == 'minimal':
+        return mquote(a)
+    if style == 'dqrepr':
+        return dqrepr(a)
+    if style == 'hex':          # every character as \xHH (ASCII only; others raw)
+        return '"' + ''.join('\\x%02x' % ord(c) if ord(c) < 128 else c for c in a) + '"'
+    if style == 'octal':
+        return '"' + ''.join('\\%03o' % ord(c) if ord(c) < 128 else c for c in a) + '"'
+    if style == 'u4':
+        return '"' + ''.join('\\u%04x' % ord(c) if ord(c) < 128 else c for c in a) + '"'
+    if style == 'mixed':        # escape only what needs it, brackets/pipe as \xHH
+        return '"' + ''.join('\\x%02x' % ord(c) if c in '[]<>{}()|' else ('\\' + c if c in '\\"' else c) for c in a) + '"'
+    raise ValueError(style)
+
+
+def spell_ok(a, style):
+    """inputs for which the spelling is inside the property's quantifier"""
+    if style == 'dqrepr':
+        return True
+    return irc_ok(a)
+
+
+def nested_text(inp):
+    """args rendered as quoted tokens inside `depth` levels of the configured brackets, between bare words"""
+    cfg, args, style, depth = inp['cfg'], inp['args'], inp['style'], inp['depth']
+    e = eff(cfg)
+    l, r = e['brackets'][0], e['brackets'][1]
+    dq = _mods()['dqrepr']
+    body = ' '.join(spell(a, style, dq) for a in args)
+    want = [['L', a] for a in args]
+    lay = inp.get('layout', 'cmd')
+    for d in range(depth):
+        if lay == 'tight':        # [ARGS]
+            body, want = l + body + r, [['N', want]]
+        elif lay == 'cmd':        # [echo ARGS]
+            body, want = l + 'echo ' + body + r, [['N', [['L', 'echo']] + want]]
+        else:                     # [echo ARGS x] with spaces around the brackets
+            body, want = l + ' echo ' + body + ' x ' + r, [['N', [['L', 'echo']] + want + [['L', 'x']]]]
+    if inp.get('outer', True):
+        body, want = 'outer ' + body + ' tail', [['L', 'outer']] + want + [['L', 'tail']]
+    return body, want
+
+
+def check_nested(ctx, inp):
+    """the quote round trip wherever the quoted arguments are placed: inside nested commands of the configured bracket style"""
+    cfg = inp['cfg']
+    if '"' not in cfg['quotes'] or not eff(cfg)['brackets']:
+        return None
+    if not all(spell_ok(a, inp['style']) for a in inp['args']):
+        return None
+    text, want = nested_text(inp)
+    got = impl_wrapper(cfg, text)
+    if got != ('ok', want):
+        ctx.fail(inp, '%s-quoted arguments %r placed in a nested command, written %r, tokenise to %r (expected %r)'
+                 % (inp['style'], inp['args'], text, got, want))
+    return text
+
+
 def render(t, l, r):
     return t[1] if t[0] == 'L' else l + ' '.join(render(x, l, r) for x in t[1]) + r
 
@@ -294,7 +358,8 @@ def rand_tree(rng, depth, cfg):
     return [node(depth) for _ in range(rng.randint(1, 4))]
 
 
-CORPUS = ['', ' ', 'a', 'a b', '"a b" c', '"a\\"b"', '"\\\\"', '"a', '"a\\', '"a\\"', 'a"b', 'a"b c"', '[a]', '[a', 'a]', '[[a] b] c', '[]', 'a[b]c', 'a|b',
+CORPUS = ['outer ["echo" "a" "]" "b"] tail', 'outer [echo "["] tail', '[echo "\\x5d"]', '["\\x5b"]', '<echo ">" "<">', '{"}"}', '(")" "(")',
+          '[echo "|"]', '[a "]" [b "["]]', '["]"', '["\\135"]', '["\\u005d"]', '[echo "a]b"]', '["\\"" "]"]', '', ' ', 'a', 'a b', '"a b" c', '"a\\"b"', '"\\\\"', '"a', '"a\\', '"a\\"', 'a"b', 'a"b c"', '[a]', '[a', 'a]', '[[a] b] c', '[]', 'a[b]c', 'a|b',
           'a | b', '| a', 'a |', 'a | b | c', 'a | b | c | d', '[a | b]', '"\u597d"', '"\u00c2\u0080"', '"\\xc2\\x80"', '"\\x80"', '"\\xe9"', '"\ud800"', '\ud800',
           '"\\N{DIGIT ONE}"', '"\\N{nope}"', '"\\N"', '"\\x4"', '"\\U00110000"', '"\\777"', '"\\18"', '"\\q"', 'a\x00b', '\x00', '"\x00"', 'a\rb\nc', '""', '"" ""',
           "'a b'", "a'b c'd", '"a\'b"', '`a b`', '"a"b', '"a""b"', 'a\\ b', '\\', '"\\\n"', '<a>', '{a}', '(a)', '[<a>]', '"\\u00e9\\u597d\\U0001f600"',
@@ -353,6 +418,29 @@ def run(ctx):
             argcases.append(inp)
             if '"' in c['quotes']:
                 texts.append((c, ' '.join(mquote(a) for a in args) if style == 'minimal' else ' '.join(_mods()['dqrepr'](a) for a in args), 'rendered-' + style))
+    # quoted argument lists placed inside nested commands (every bracket style, every spelling)
+    nestcases = []
+    styles_b = [b for b in valid_brackets() if b]
+    for b in styles_b:
+        for p in (0, 1):
+            c = {'nested': 1, 'brackets': b, 'pipe': p, 'quotes': '"'}
+            for a in SPECIAL_ARGS:
+                for st in SPELLINGS:
+                    for args in ([a], ['a', a, 'b']):
+                        for depth, lay in ((1, 'cmd'), (1, 'tight'), (2, 'spaced')):
+                            nestcases.append({'op': 'nested', 'cfg': c, 'args': args, 'style': st, 'depth': depth, 'layout': lay,
+                                              'outer': lay != 'tight'})
+    for _ in range(ctx.n(2500)):
+        c = rand_cfg(rng)
+        c['nested'] = 1
+        c['brackets'] = rng.choice(styles_b)
+        if rng.random() < 0.85:
+            c['quotes'] = rng.choice(['"', '"\'', '`"\''])
+        args = [rng.choice(SPECIAL_ARGS) if rng.random() < 0.5 else rand_arg(rng) for _ in range(rng.randint(0, 4))]
+        nestcases.append({'op': 'nested', 'cfg': c, 'args': args, 'style': rng.choice(SPELLINGS), 'depth': rng.choice([1, 1, 2, 3]),
+                          'layout': rng.choice(['cmd', 'tight', 'spaced']), 'outer': rng.random() < 0.7})
+    for inp in nestcases:
+        texts.append((inp['cfg'], nested_text(inp)[0], 'rendered-nested'))
     # bare-word trees
     treecases = []
     for _ in range(ctx.n(1500)):
@@ -374,6 +462,9 @@ def run(ctx):
     for inp in argcases:
         ctx.case('args-' + inp['style'], inp, nontrivial=bool(inp['args']))
         check_args(ctx, inp)
+    for inp in nestcases:
+        ctx.case('nested-' + inp['style'], inp, nontrivial=bool(inp['args']))
+        check_nested(ctx, inp)
     for inp in treecases:
         ctx.case('tree', inp)
         check_tree(ctx, inp)
@@ -453,10 +544,12 @@ def replay(ctx, inp):
         check_args(sub, inp)
     elif op == 'tree':
         check_tree(sub, inp)
+    elif op == 'nested':
+        check_nested(sub, inp)
     return sub.failures[0]['detail'] if sub.failures else None
 
 
-CLASSES = {'dqrepr_latin1_utf8': lambda inp: inp.get('op') == 'args' and inp.get('style') == 'dqrepr' and any(latin1_utf8(a) for a in inp['args'])}
+CLASSES = {'dqrepr_latin1_utf8': lambda inp: inp.get('op') in ('args', 'nested') and inp.get('style') == 'dqrepr' and any(latin1_utf8(a) for a in inp['args'])}
 
 
 def shrink(ctx, inp):
@@ -464,7 +557,7 @@ def shrink(ctx, inp):
     if op == 'text':
         small = shrink_seq(inp['s'], lambda s: replay(ctx, dict(inp, s=s)) is not None)
         return dict(inp, s=small)
-    if op == 'args':
+    if op in ('args', 'nested'):
         args = shrink_seq(inp['args'], lambda a: bool(a) and replay(ctx, dict(inp, args=list(a))) is not None)
         args = list(args)
         for i in range(len(args)):
